@@ -14,6 +14,10 @@ fn unhex(h: &str) -> Vec<u8> {
 fn board_res(r: Result<Board, Error>) -> String {
     match r { Ok(b) => format!("OK {}~{}", enc(&b), obs(&b)), Err(_) => "ERR".to_string() }
 }
+/// Board::from_str under catch_unwind (a panicking parser must not take the stream down)
+fn parse_board_res(txt: &str) -> String {
+    match catch_unwind(AssertUnwindSafe(|| Board::from_str(txt))) { Ok(r) => board_res(r), Err(_) => "PANIC".to_string() }
+}
 pub fn builder_enc(bb: &BoardBuilder) -> String {
     let mut s = String::new();
     for q in ALL_SQUARES.iter() { s.push(match bb[*q] { Some((p, c)) => piece_char(p, c), None => '.' }); }
@@ -27,6 +31,7 @@ pub fn builder_enc(bb: &BoardBuilder) -> String {
 /// double pawn push.  The driver appends the standard writer's text (stage 2), `fenparse`
 /// parses it (stage 3).
 pub fn fen(n_games: u64) {
+    std::panic::set_hook(Box::new(|_| {}));
     let mut rng = Rng::new(seed_from_env());
     let out = std::io::stdout(); let mut out = std::io::BufWriter::new(out.lock());
     let rs = roots();
@@ -45,7 +50,7 @@ pub fn fen(n_games: u64) {
             let four: String = disp.split(' ').take(4).collect::<Vec<&str>>().join(" ");
             writeln!(out, "F {} | dp={} | {} | {} | brt={} same={} | {}", enc(b),
                 match dp { Some(x) => x.to_string(), None => "-".to_string() }, hex(&disp),
-                board_res(Board::from_str(&disp)), brt, (disp == bdisp) as u8, board_res(Board::from_str(&four))).unwrap();
+                parse_board_res(&disp), brt, (disp == bdisp) as u8, parse_board_res(&four)).unwrap();
         };
         for step in 0..80 {
             emit(&mut out, &b, dp);
@@ -86,7 +91,7 @@ pub fn parse_stage(kind: &str) {
             if let Some(i) = line.rfind("|| STD ") {
                 let h = line[i + 7..].trim();
                 let txt = String::from_utf8_lossy(&unhex(h)).to_string();
-                writeln!(out, "{} | {}", line, board_res(Board::from_str(&txt))).unwrap();
+                writeln!(out, "{} | {}", line, parse_board_res(&txt)).unwrap();
             } else { writeln!(out, "{}", line).unwrap(); }
         } else {
             // "S <enc> | hex hex hex ..." -> "S <enc> | hex=res ..."
